@@ -198,6 +198,12 @@ func (m *JSONMarshaler) marshalSingular(opts *protojson.MarshalOptions, value pr
 		case math.IsInf(f, -1):
 			marshalVal = "-Infinity"
 		}
+	case protoreflect.BytesKind:
+		// An unset bytes field reads as a nil slice, which encoding/json would marshal as null;
+		// the Proto3 JSON Mapping of empty bytes is the empty string.
+		if value.Bytes() == nil {
+			marshalVal = []byte{}
+		}
 	default:
 	}
 
